@@ -44,6 +44,9 @@ type Action struct {
 	Rewrite func(elems []string) []string
 	// RewriteBody may replace the whole body.
 	RewriteBody func(body string) string
+	// Behind > 0: the request is answered by a backend that has not seen the last Behind blocks yet (a lagging
+	// node behind a load balancer): "latest" is its own head, later blocks/receipts/traces are null, later logs absent.
+	Behind int
 }
 
 // Call is one JSON-RPC call of a request.
@@ -409,6 +412,9 @@ func (n *Node) serve(w http.ResponseWriter, r *http.Request, tag string) {
 
 	// compute responses against a consistent view of the canonical chain
 	canon := n.Chain.Canon()
+	if act.Behind > 0 {
+		canon = canon[:max(1, len(canon)-act.Behind)]
+	}
 	at := func(c *Call) *Block {
 		if c.BlockArg == "latest" {
 			return canon[len(canon)-1]
